@@ -171,7 +171,7 @@ def body(chk):
             if sc != scalar:
                 continue
             if cur != name:
-                lines.append('  masa_init<%s>("%s_%s","%s");' % (cxx, name, 'd' if scalar == 'double' else 'e', name))
+                lines.append('  printf("\\nI %s|%s\\n"); fflush(stdout); masa_init<%s>("%s_%s","%s");' % (scalar.replace(' ', '_'), name, cxx, name, 'd' if scalar == 'double' else 'e', name))
                 cur = name
             pts = ['0.37', '0.41', '0.43', '0.47']
             a = []
@@ -191,7 +191,11 @@ def body(chk):
                 path = chk.save_replay('interior:' + tag, dict(case=tag, value=val), '\n'.join(lines))
                 chk.report_violation('interior:' + tag.split('|', 1)[1], path, 'documented evaluator returns %s at the interior point with default parameters' % val)
     if seen != len(concrete):
-        chk.infra.append('interior-point driver printed %d of %d results (rc=%s)' % (seen, len(concrete), rc))
+        # the real library died (masa_init of a listed name is fatal, or an evaluator crashed): the last marker names the entry
+        marks = [l[2:] for l in out.split('\n') if l.startswith('I ')]
+        last = marks[-1] if marks else '?'
+        path = chk.save_replay('reachable:' + last, dict(case=last, rc=rc, stdout_tail=out[-600:]), '\n'.join(lines))
+        chk.report_violation('reachable:' + last.split('|')[-1], path, 'the real library terminated (rc=%s) at catalogue entry %s: a listed solution cannot be initialised / evaluated with its defaults' % (rc, last))
     chk.extra_cov['interior_point_evaluations_on_real_library'] = seen
     chk.extra_cov['exhaustive'] = True
     chk.extra_cov['path_checks_skipped_for_loops'] = skipped[0]
